@@ -711,12 +711,27 @@ def valid_history_ctx(rng: random.Random, ctx: Ctx, nops: int, profile: str = "m
 
 
 def revalidate(ctx: Ctx, ops: list) -> list:
-    """Keep the ops that succeed, in order, on a fresh sequence."""
+    """The ops that ALL succeed, in order, on a fresh sequence.  A refused call may leave traces
+    (findings F2.x), so after dropping the refused ones the rest is replayed from scratch until
+    nothing is refused any more."""
+    for _ in range(6):
+        seq = ctx.new_template()
+        good, dropped = [], False
+        for op in ops:
+            if try_op(seq, ctx, op, lambda x: x)[0] == "ok":
+                good.append(op)
+            else:
+                dropped = True
+        ops = good
+        if not dropped:
+            return ops
+    # give up: the longest prefix that replays cleanly
     seq = ctx.new_template()
     good = []
     for op in ops:
-        if try_op(seq, ctx, op, lambda x: x)[0] == "ok":
-            good.append(op)
+        if try_op(seq, ctx, op, lambda x: x)[0] != "ok":
+            break
+        good.append(op)
     return good
 
 
